@@ -73,6 +73,15 @@ class _File(object):
         self._f, self._path, self._mode = f, path, mode
 
     def write(self, data):
+        if STATE["mode"] == "sched" and STATE.get("tear") and len(data) > 1:
+            # a torn write: two system calls with a scheduling point in between
+            _before("write", self._path, data_len=len(data) // 2)
+            self._f.write(data[: len(data) // 2])
+            self._f.flush()
+            _before("write", self._path, data_len=len(data) - len(data) // 2)
+            self._f.write(data[len(data) // 2:])
+            self._f.flush()
+            return len(data)
         r = _before("write", self._path, data_len=len(data))
         if r == "half":
             self._f.write(data[: len(data) // 2])
